@@ -12,6 +12,7 @@ import (
 	"fmt"
 	"io"
 	"os"
+	"regexp"
 	"sort"
 	"strings"
 	"time"
@@ -91,6 +92,8 @@ type qhTarget struct {
 	viol   []string
 	perMsg map[string]int
 	spool  string // when set, .meta of the message is snapshotted at Start
+	// commitNote, when set, is appended to the commit marker (bounce targets: recipients named by the report)
+	commitNote func(d *qhDeliv) string
 	onEvent func(ev string)
 }
 
@@ -164,6 +167,7 @@ func (q *qhDelivery) AddRcpt(ctx context.Context, rcptTo string, _ smtp.RcptOpti
 		q.t.bad(d, "AddRcpt after Body")
 	}
 	d.Offered = append(d.Offered, rcptTo)
+	q.t.event(fmt.Sprintf("%s:offer:%s:%d:%s", q.t.name, d.MsgID, d.Attempt, rcptTo))
 	c := q.t.ask(d, "rcpt", rcptTo)
 	d.Events = append(d.Events, "rcpt("+rcptTo+")="+qhClassNames[c])
 	if c != qhOK {
@@ -239,7 +243,11 @@ func (q *qhDelivery) Commit(ctx context.Context) error {
 	d.CommitOK = c == qhOK
 	d.Events = append(d.Events, "commit="+qhClassNames[c])
 	if c == qhOK {
-		q.t.event(fmt.Sprintf("%s:commit:%s:%d:%s", q.t.name, d.MsgID, d.Attempt, strings.Join(q.delivered(), ",")))
+		note := strings.Join(q.delivered(), ",")
+		if q.t.commitNote != nil {
+			note = q.t.commitNote(d)
+		}
+		q.t.event(fmt.Sprintf("%s:commit:%s:%d:%s", q.t.name, d.MsgID, d.Attempt, note))
 	}
 	return qhErr(c, "commit")
 }
@@ -304,6 +312,20 @@ type qhMsg struct {
 	Header textproto.Header
 	Body   []byte
 	Meta   *module.MsgMetadata
+	// the client (or a later pipeline target) gives up: the transaction is aborted
+	AbortAfterBody  bool
+	AbortBeforeBody bool
+}
+
+var qhFinalRcpt = regexp.MustCompile(`(?mi)^Final-Recipient:\s*(?:rfc822|utf-?8)\s*;\s*(\S+)\s*$`)
+
+// qhNamed lists the recipients named by a failure report body.
+func qhNamed(body []byte) []string {
+	var named []string
+	for _, m := range qhFinalRcpt.FindAllStringSubmatch(string(body), -1) {
+		named = append(named, m[1])
+	}
+	return named
 }
 
 func qhHeader(s string) textproto.Header {
@@ -342,8 +364,21 @@ func qhSubmit(q *Queue, m qhMsg) (string, error) {
 			return "rcpt", err
 		}
 	}
+	if m.AbortAfterBody || m.AbortBeforeBody {
+		if m.AbortAfterBody {
+			if err := d.Body(ctx, m.Header, buffer.MemoryBuffer{Slice: m.Body}); err != nil {
+				d.Abort(ctx)
+				vos.Mark("aborted:" + m.ID)
+				return "body", err
+			}
+		}
+		d.Abort(ctx)
+		vos.Mark("aborted:" + m.ID)
+		return "aborted", nil
+	}
 	if err := d.Body(ctx, m.Header, buffer.MemoryBuffer{Slice: m.Body}); err != nil {
 		d.Abort(ctx)
+		vos.Mark("aborted:" + m.ID)
 		return "body", err
 	}
 	if err := d.Commit(ctx); err != nil {
@@ -357,6 +392,12 @@ func qhSubmit(q *Queue, m qhMsg) (string, error) {
 // schedule and keeps firing virtual timers until nothing is pending.
 func qhRun(body func()) *vsched.Outcome {
 	return vsched.Run(nil, vsched.Options{KeepEnv: true, MaxSteps: 400000}, body)
+}
+
+// qhRunAt is qhRun with the virtual clock starting at the given offset (a
+// restart happens later than the run it follows).
+func qhRunAt(at time.Duration, body func()) *vsched.Outcome {
+	return vsched.Run(nil, vsched.Options{KeepEnv: true, MaxSteps: 400000, StartAt: at}, body)
 }
 
 func qhSpoolFiles(dir string) []string {
